@@ -8,7 +8,7 @@ import pickle
 from vlib import (InfraError, Raw, build, copy_specs, covering_walks, log, parse_counts, parse_export, run, tlc,
                   validate_split, workdir, write_mc, HARNESS)
 
-ELEMS = {'TC': 'vh::ETC', 'TR': 'vh::ETR', 'NTR': 'vh::ENTR'}
+ELEMS = {'TC': 'vh::ETC', 'TR': 'vh::ETR', 'NTR': 'vh::ENTR', 'NTRM': 'vh::ENTRM'}
 ALLOCS = {'amcled': 1, 'stdlike': 2, 'withrealloc': 3, 'amc': 4, 'std': 5}
 CMPT = {'Cmp': 1, 'Cmp2': 2, 'CmpT': 3, 'CmpL': 4, 'CmpG': 5}
 
